@@ -1008,6 +1008,13 @@ func (p *Pkg) buildGetModel() *GetModel {
 				(isNilIdent(info, rs.Results[1]) || identObj(info, rs.Results[1]) == errObj) {
 				continue
 			}
+			// arms that return their value themselves, then `return "", nil` for a
+			// stored code without a name (what the named result would hold)
+			if len(rs.Results) == 2 && isNilIdent(info, rs.Results[1]) && (rObj == nil || !assignedIn(info, fd.Body, rObj)) {
+				if c, isC := constString(info, rs.Results[0]); isC && c == "" {
+					continue
+				}
+			}
 		}
 		add(false, "R07.names", "*", s, "statement outside the metric switch of Get is not the final return of the named results: undecided")
 	}
